@@ -100,7 +100,8 @@ def _client(unix, log, pref=None):
             log['authed'] += 1
 
     c = Cli()
-    c.makeConnection(N.FakeUnixTransport() if unix else N.FakeTransport())
+    # a UNIX transport may declare what it is on its class or on the instance (wrapped transports do the latter)
+    c.makeConnection((N.unix_transport_by_instance() if unix == 'instance' else N.FakeUnixTransport()) if unix else N.FakeTransport())
     return c
 
 
@@ -470,7 +471,7 @@ def enum_preferences(tier):
     for r in (1, 2, 3):
         for pref in itertools.permutations(names, r):
             for seq in (['RJ', 'RJ', 'RJ', 'RJ'], ['RJ', 'ER', 'RJ'], ['ER', 'RJ', 'OKh'], ['RJ', 'OKh'], ['OKh']):
-                for unix in (False, True):
+                for unix in (False, True, 'instance'):
                     yield {'seq': seq, 'unix': unix, 'split': SPLITS[i % 3], 'pref': list(pref)}
                     i += 1
 
@@ -490,7 +491,7 @@ def enum_handshake(tier):
     for r in (1, 2, 3):
         for acc in itertools.combinations(mechs, r):
             for neg in ('AGREE_UNIX_FD', 'ERROR'):
-                for unix in (True, False):
+                for unix in (True, False, 'instance'):
                     for ext in ('ok', 'data'):
                         yield {'accept': list(acc), 'neg': neg, 'unix': unix, 'external': ext, 'nonce': 'n1'}
                         if 'DBUS_COOKIE_SHA1' in acc and ext == 'ok':
